@@ -102,7 +102,10 @@ def parse(path):
                         cur.submsgs = int(v)
             elif tag == "X":
                 k, _, v = rest.partition("=")
-                cur.unchanged = v == "1"
+                if k == "why":
+                    cur.notes["why"] = v
+                else:
+                    cur.unchanged = v == "1"
             elif tag == "F":
                 pending_fault = int(rest.split()[0])
             elif tag == "A":
